@@ -130,6 +130,13 @@ func runC18(c *Ctx) {
 		other := keyRRFrom(keys[alg].key)
 		other.Hdr.Name = "other.example."
 		c.Pred("verify", "signer-name-mismatch-rejected", in, verify(out, other) != "ok", "ok", "err", true)
+		// names that are different octet strings but look alike: Unicode fold partners of ASCII letters (U+017F long s,
+		// U+212A Kelvin sign), a different final label, a missing label
+		for _, nm := range []string{"\u017Figner.example.", "signer.e\u017Fample.", "signer.example.\u212A.", "signer.exampl\u0435.", "signer.exarnple.", "example.", "xsigner.example."} {
+			look := keyRRFrom(keys[alg].key)
+			look.Hdr.Name = nm
+			c.Pred("verify", "signer-name-lookalike-rejected", "key owner "+hxs(nm)+" "+in, verify(out, look) != "ok", "ok", "err", true)
+		}
 		// outside the validity window
 		for _, w := range [][2]uint32{{now + 100, now + 300}, {now - 300, now - 100}, {now + 0x80000100, now + 0x80000200}, {now + 300, now - 300}} {
 			s := mk(alg, key.KeyTag())
